@@ -660,6 +660,13 @@ impl DtlsInner {
                     let consumed = msg_buf.len() - body.len();
                     let raw_msg = msg_buf.slice(0..consumed);
 
+                    // After a HelloVerifyRequest the only acceptable next message is the
+                    // ServerHello: a retransmitted HVR or a reordered later message of the
+                    // server flight must not re-synchronise recv_message_seq.
+                    if ctx.post_hvr && is_client && msg.msg_type != HandshakeType::ServerHello {
+                        continue;
+                    }
+
                     if msg.message_seq < ctx.recv_message_seq {
                         // If we just processed a HelloVerifyRequest, the server may
                         // restart its message_seq at a value lower than what we expect
